@@ -2,7 +2,7 @@ SPECIFICATION Spec
 CONSTANTS
   Mode = "vfield"
   MaxLen = 3
-  RepChoices = {{}}
+  RepChoices = {{}, {"ghost"}}
   OwnChoices = {{}, {"map", "ghost"}}
   TNames = {"x"}
 INVARIANTS FoldOk Emit
